@@ -27,15 +27,27 @@ func init() {
 		}
 		calls := x.Calls(sb)
 		x.StrList("sendBundleCalls", calls)
-		upd := CallIndex(calls, "idKeeper.update")
+		updName := "idKeeper.updateUnless"
+		if CallIndex(calls, updName) < 0 {
+			updName = "idKeeper.update"
+		}
+		x.Str("sendBundleUpdateCall", updName)
+		upd := CallIndex(calls, updName)
 		desc := CallIndex(calls, "NewBundleDescriptorFromBundle")
 		sign := CallIndex(calls, "sendBundleAttachSignature")
 		x.Int("sendBundleUpdateIdx", int64(upd))
 		x.Int("sendBundleDescriptorIdx", int64(desc))
 		x.Int("sendBundleSignIdx", int64(sign))
 		// the update must be an unconditional top-level statement whose argument is SendBundle's parameter
-		x.Bool("sendBundleUpdateUnconditional", c14TopLevelCall(sb, "idKeeper.update") >= 0)
-		x.Int("sendBundleUpdateStmt", int64(c14TopLevelCall(sb, "idKeeper.update")))
+		x.Bool("sendBundleUpdateUnconditional", c14TopLevelCall(sb, updName) >= 0)
+		x.Int("sendBundleUpdateStmt", int64(c14TopLevelCall(sb, updName)))
+		// the first statement of SendBundle, verbatim: which "taken" predicate the IdKeeper is given
+		sbSk := x.Skeleton(sb)
+		first := ""
+		if len(sbSk) > 0 {
+			first = sbSk[0]
+		}
+		x.Str("sendBundleFirstStmt", first)
 		x.Int("sendBundleDescriptorStmt", int64(c14TopLevelCall(sb, "NewBundleDescriptorFromBundle")))
 		x.Int("sendBundleTransmitStmt", int64(c14TopLevelCall(sb, "c.transmit")))
 
@@ -44,11 +56,12 @@ func init() {
 			return err
 		}
 		x.StrList("transmitCalls", x.Calls(tr))
-		x.Bool("transmitCallsUpdate", x.HasCall(tr, "idKeeper.update"))
+		x.Bool("transmitCallsUpdate", x.HasCall(tr, "idKeeper.update") || x.HasCall(tr, "idKeeper.updateUnless"))
 
 		// every function of pkg/routing that calls transmit / idKeeper.update
 		x.StrList("transmitCallers", c14Callers(x, routingDir, ".transmit"))
-		x.StrList("updateCallers", c14Callers(x, routingDir, "idKeeper.update"))
+		x.StrList("updateCallers", append(c14Callers(x, routingDir, "idKeeper.update"), c14Callers(x, routingDir, "idKeeper.updateUnless")...))
+		x.StrList("updateUnlessCallers", c14Callers(x, routingDir, ".updateUnless"))
 
 		// From here on nothing returns early: a function that no longer exists is recorded as an
 		// extraction failure (`gen_no_extraction_failure` breaks) and its facts get empty values, so
@@ -62,8 +75,9 @@ func init() {
 			}
 		}
 
-		// ---- IdKeeper.update
-		up, err := x.Func(routingDir, "IdKeeper", "update")
+		// ---- IdKeeper.update (a wrapper) and IdKeeper.updateUnless (the body)
+		skel("updateWrapperSkeleton", routingDir, "IdKeeper", "update")
+		up, err := x.Func(routingDir, "IdKeeper", "updateUnless")
 		if err != nil {
 			x.Failf("%v", err)
 			up = &ast.FuncDecl{Body: &ast.BlockStmt{}}
